@@ -42,6 +42,12 @@ OwnLength ==
     UNION {{[op |-> "encode2", tag |-> "own-length", resp |-> m.resp, cap |-> N, stale |-> << >>] :
                N \in {m.len - 1, m.len} \cap Caps} : m \in Families}
 
+\* capacities beyond 16 bits (a buffer larger than any transport is still a buffer)
+HugeCaps ==
+    {[op |-> "encode2", tag |-> "huge-capacity", resp |-> r, cap |-> N, stale |-> << >>] :
+        r \in {CpTok(0), CpTok(1), CpTok(2), CpTok(40), GaAuth(37), [kind |-> "Reset", v |-> << >>], [kind |-> "ClientPin", v |-> CpRespMin]},
+        N \in {65535, 65536, 65537, 65538, 65539, 65540, 131072}}
+
 EmptyBodies ==
     {RespCase(k, v, N, "empty-body") :
         N \in {1, 2, 3, 64},
@@ -89,7 +95,7 @@ Largest ==
            {[op |-> "encode2", tag |-> "largest", resp |-> r, cap |-> N, stale |-> << >>] :
                N \in {len - 1, len, len + 1, 1024, 3072, 7609} \cap Caps} : r \in LatticeResps}
 
-MC_Cases == Tuned \cup OwnLength \cup EmptyBodies \cup Smallest \cup Planted \cup EveryCap \cup Largest
+MC_Cases == Tuned \cup OwnLength \cup HugeCaps \cup EmptyBodies \cup Smallest \cup Planted \cup EveryCap \cup Largest
 
 \* the status byte in front of every kind of response, fitting and not, with and without previous
 \* contents in the buffer (C18: the numbers of Success and Other as emitted)
